@@ -48,8 +48,34 @@ class SegModel(tuple):
     encoding = property(lambda s: s[3])
 
 
+class _AnyAttr:
+    def __contains__(self, name):
+        return True
+
+
 class SegmentsModel:
-    _model = ('segments', 'modes', 'bit_length', 'bit_length_with_overhead')
+    """A Segments object whose bit count is prescribed by the rule.  Anything else the code under analysis asks of it (private
+    helper methods a refactoring may have added to the class) is taken from the repository's own `Segments` class, bound to
+    this object."""
+    _model = _AnyAttr()
+    _binding = None         # (forest, genv, interp) of the environment built last (encoder_env)
+
+    def __getattr__(self, name):
+        if name.startswith('__'):
+            raise AttributeError(name)
+        b = SegmentsModel._binding
+        if b is not None:
+            forest, genv, it = b
+            if forest.has_func('encoder', f'Segments.{name}'):
+                fn = forest.func('encoder', f'Segments.{name}')
+                fv = FuncVal(fn, genv, it)
+                decos = [d.id if hasattr(d, 'id') else getattr(d, 'attr', None) for d in fn.decorator_list]
+                if 'property' in decos:
+                    return fv(self)
+                if 'staticmethod' in decos:
+                    return fv
+                return lambda *a, **k: fv(self, *a, **k)
+        raise ev.PyRaise(AttributeError, None, f"'Segments' object has no attribute {name!r}")
 
     def __init__(self, segs, blwo=None):
         self.segments = list(segs)
@@ -75,7 +101,9 @@ class SegmentsModel:
 
 
 def encoder_env(forest, interp, **over):
-    return callable_env(forest, 'encoder', interp, dict(over))
+    genv = callable_env(forest, 'encoder', interp, dict(over))
+    SegmentsModel._binding = (forest, genv, interp)
+    return genv
 
 
 def method(forest, interp, genv, cls, name):
